@@ -10,6 +10,7 @@ use elf::segment::ProgramHeader;
 use elf::symbol::Symbol;
 use std::fmt::Debug;
 use verif_model::elfw as m;
+use verif_model::refs;
 
 const TYPES: [&str; 9] = ["SectionHeader", "ProgramHeader", "Symbol", "Dyn", "VersionIndex", "u32", "u64", "Rel", "Rela"];
 
@@ -456,13 +457,161 @@ fn oracle_big(case: &[u8], obs: &mut Obs) -> Result<(), String> {
     Ok(())
 }
 
+/// The contract on a table as handed out by the file-level accessors (its bytes sit in the middle of a file).
+fn contract<E: EndianParse, P: ParseAt + PartialEq + Debug>(t: &ParsingTable<'_, E, P>, what: &str, obs: &mut Obs) -> Result<(), String> {
+    let n = t.len();
+    if t.is_empty() != (n == 0) {
+        return Err(format!("{}: len() = {} but is_empty() = {}", what, n, t.is_empty()));
+    }
+    let items: Vec<P> = t.iter().take(n + 2).collect();
+    if items.len() != n {
+        return Err(format!("{}: len() = {} but iteration yields {} items", what, n, items.len().min(n + 1)));
+    }
+    for (i, it) in items.iter().enumerate().take(3000) {
+        match t.get(i) {
+            Ok(g) if g == *it => {}
+            other => return Err(format!("{}: item #{} of the iteration is {:?} but get({}) = {:?}", what, i, it, i, other.map_err(|e| err_name(&e)))),
+        }
+    }
+    for i in [n, n + 1, n + 2, n + 7, (1usize << 32) | n, usize::MAX / 2, usize::MAX] {
+        if let Ok(g) = t.get(i) {
+            return Err(format!("{}: len() = {} but get({}) = Ok({:?})", what, n, i, g));
+        }
+    }
+    if t.iter().count() != n || t.iter().last().as_ref() != items.last() {
+        return Err(format!("{}: count()/last() disagree with the iteration of {} items", what, n));
+    }
+    obs.count("file_tables_checked", 1);
+    obs.label_if(n > 0, "nonempty_table_from_a_file");
+    Ok(())
+}
+
+/// Reference decoding of the whole Rel/Rela entries in `b`: (r_offset, r_sym, r_type, r_addend).
+fn ref_relocs(c64: bool, le: bool, b: &[u8], rela: bool) -> Vec<(u64, u64, u64, i64)> {
+    let w = if c64 { 8 } else { 4 };
+    let es = if rela { 3 * w } else { 2 * w };
+    let rd = |off: usize| -> u64 { if c64 { refs::rd_u64(le, b, off).unwrap() } else { refs::rd_u32(le, b, off).unwrap() as u64 } };
+    (0..b.len() / es)
+        .map(|i| {
+            let o = i * es;
+            let info = rd(o + w);
+            let (sym, ty) = if c64 { (info >> 32, info & 0xffff_ffff) } else { (info >> 8, info & 0xff) };
+            let add = if !rela { 0 } else if c64 { rd(o + 2 * w) as i64 } else { rd(o + 2 * w) as u32 as i32 as i64 };
+            (rd(o), sym, ty, add)
+        })
+        .collect()
+}
+
+/// Tables and relocation iterators as the file-level accessors hand them out: ElfBytes (tables that are windows of a
+/// larger buffer) and ElfStream over a reader with short reads and interruptions.
+fn oracle_in_file(case: &[u8], obs: &mut Obs) -> Result<(), String> {
+    use verif_model::inputs::{self, InputOpts};
+    use verif_model::io::Reader;
+    let mut c = Choice::new(case);
+    let mut o = InputOpts::default();
+    o.weights = [75, 22, 3];
+    let inp = inputs::gen_input(&mut c, &o);
+    let data = &inp.data;
+    let e = AnyEndian::Little;
+    let f = match open_as(e, data) {
+        Ok(f) => f,
+        Err(_) => {
+            obs.label("rejected");
+            return Ok(());
+        }
+    };
+    let ctx = format!("{}-byte {} input ({})", data.len(), inp.mode, inp.note);
+    let (c64, le) = (data[4] == 2, data[5] == 1);
+    let r: Result<(), String> = (|| {
+        if let Some(t) = f.section_headers() {
+            contract(&t, "ElfBytes::section_headers()", obs)?;
+        }
+        if let Some(t) = f.segments() {
+            contract(&t, "ElfBytes::segments()", obs)?;
+        }
+        if let Ok(Some((t, _))) = f.symbol_table() {
+            contract(&t, "ElfBytes::symbol_table()", obs)?;
+        }
+        if let Ok(Some((t, _))) = f.dynamic_symbol_table() {
+            contract(&t, "ElfBytes::dynamic_symbol_table()", obs)?;
+        }
+        if let Ok(Some(t)) = f.dynamic() {
+            contract(&t, "ElfBytes::dynamic()", obs)?;
+        }
+        if let Ok(cd) = f.find_common_data() {
+            if let Some(t) = &cd.symtab {
+                contract(t, "find_common_data().symtab", obs)?;
+            }
+            if let Some(t) = &cd.dynsyms {
+                contract(t, "find_common_data().dynsyms", obs)?;
+            }
+            if let Some(t) = &cd.dynamic {
+                contract(t, "find_common_data().dynamic", obs)?;
+            }
+        }
+        let (chunks, intr) = crate::stream::gen_reader_behaviour(&mut c, 1);
+        let reader = Reader::with(data.clone(), chunks.clone(), intr, vec![]);
+        let mut fs = match open_stream_as(e, reader) {
+            Ok(s) => s,
+            Err(er) => return Err(format!("the slice opens but open_stream (reader chunks {:?} interrupt_every {}) fails with {}", chunks, intr, err_name(&er))),
+        };
+        if let Ok(Some((t, _))) = fs.symbol_table() {
+            contract(&t, "ElfStream::symbol_table()", obs)?;
+        }
+        if let Ok(Some((t, _))) = fs.dynamic_symbol_table() {
+            contract(&t, "ElfStream::dynamic_symbol_table()", obs)?;
+        }
+        if let Ok(Some(t)) = fs.dynamic() {
+            contract(&t, "ElfStream::dynamic()", obs)?;
+        }
+        let Some(shdrs) = f.section_headers() else { return Ok(()) };
+        let n = shdrs.len();
+        let first = if n > 64 { c.below(n as u64 - 63) as usize } else { 0 };
+        for i in first..n.min(first + 64) {
+            let Ok(h) = shdrs.get(i) else { continue };
+            if h.sh_type != elf::abi::SHT_REL && h.sh_type != elf::abi::SHT_RELA {
+                continue;
+            }
+            let rela = h.sh_type == elf::abi::SHT_RELA;
+            let Ok((buf, _)) = f.section_data(&h) else { continue };
+            let want = ref_relocs(c64, le, buf, rela);
+            let cap = buf.len() + 2;
+            let got: Result<Vec<(u64, u64, u64, i64)>, ParseError> = if rela { f.section_data_as_relas(&h).map(|it| it.take(cap).map(|r| (r.r_offset, r.r_sym as u64, r.r_type as u64, r.r_addend)).collect()) } else { f.section_data_as_rels(&h).map(|it| it.take(cap).map(|r| (r.r_offset, r.r_sym as u64, r.r_type as u64, 0)).collect()) };
+            let Ok(got) = got else { continue };
+            if got != want {
+                return Err(format!("section {} ({} of {} bytes) through ElfBytes yields {} entries {:?}; its whole entries are {:?}", i, if rela { "SHT_RELA" } else { "SHT_REL" }, buf.len(), got.len().min(cap - 1), &got[..got.len().min(6)], &want[..want.len().min(6)]));
+            }
+            obs.count("relocation_sections_checked", 1);
+            if h.sh_flags & 0x800 != 0 {
+                continue;
+            }
+            let gs: Result<Vec<(u64, u64, u64, i64)>, ParseError> = if rela { fs.section_data_as_relas(&h).map(|it| it.take(cap).map(|r| (r.r_offset, r.r_sym as u64, r.r_type as u64, r.r_addend)).collect()) } else { fs.section_data_as_rels(&h).map(|it| it.take(cap).map(|r| (r.r_offset, r.r_sym as u64, r.r_type as u64, 0)).collect()) };
+            match gs {
+                Ok(g) if g == want => {
+                    obs.count("relocation_sections_checked_through_a_stream", 1);
+                    obs.label_if(!chunks.is_empty() && !want.is_empty(), "relocations_through_a_short_reading_stream");
+                }
+                Ok(g) => return Err(format!("section {} ({} of {} bytes) through ElfStream (reader chunks {:?} interrupt_every {}) yields {} entries {:?}; its whole entries are {:?}", i, if rela { "SHT_RELA" } else { "SHT_REL" }, buf.len(), chunks, intr, g.len().min(cap - 1), &g[..g.len().min(6)], &want[..want.len().min(6)])),
+                Err(er) => return Err(format!("section {} through ElfStream fails with {} although ElfBytes yields its {} whole entries", i, err_name(&er), want.len())),
+            }
+        }
+        Ok(())
+    })();
+    r.map_err(|m| format!("{}: {}", ctx, m))?;
+    obs.label(inp.mode);
+    obs.nontrivial();
+    obs.key = fnv64(data);
+    obs.describe(|| json!({"input": ctx}));
+    Ok(())
+}
+
 pub fn property() -> Property {
     Property {
         id: "C09",
         level: "exploration",
-        rule: "cases are (entry type in {SectionHeader,ProgramHeader,Symbol,Dyn,VersionIndex,u32,u64,Rel,Rela}, class, byte order, fixed or run-time spec, n<=40 entries encoded by the independent ELF writer from generated field values, 0..entsize-1 trailing bytes, an access script of len/is_empty/get(i)/iter/into_iter/interleaved-iterator steps, nth(k) on the advanced iterator, skip/step_by/count/last/fuse on fresh and partly consumed iterators (the relocation iterators also through direct calls on the concrete types), with i in 0..n+2, k*2^32+i and near usize::MAX incl. indices whose byte offset wraps); oracle: len==floor(bytes/ABI entsize), get(i) Ok iff i<n and equal to the encoded entry, iter and into_iter yield exactly n items with item i == get(i) == encoded entry, is_empty==(n==0), independent of order/repetition. Non-trivial: ragged byte length or an access at index len; distinct by (bytes, script) hash. Subcheck big_tables: VersionIndex/u32/u64 tables of k*65536 + {-2..3, 255..257, 0..3000} pairwise distinct entries (k in 1..3), the same oracle with accesses at 65535/65536/65537/n-1/n, nth and skip/step_by distances above 2^16; every case counts as non-trivial.",
+        rule: "cases are (entry type in {SectionHeader,ProgramHeader,Symbol,Dyn,VersionIndex,u32,u64,Rel,Rela}, class, byte order, fixed or run-time spec, n<=40 entries encoded by the independent ELF writer from generated field values, 0..entsize-1 trailing bytes, an access script of len/is_empty/get(i)/iter/into_iter/interleaved-iterator steps, nth(k) on the advanced iterator, skip/step_by/count/last/fuse on fresh and partly consumed iterators (the relocation iterators also through direct calls on the concrete types), with i in 0..n+2, k*2^32+i and near usize::MAX incl. indices whose byte offset wraps); oracle: len==floor(bytes/ABI entsize), get(i) Ok iff i<n and equal to the encoded entry, iter and into_iter yield exactly n items with item i == get(i) == encoded entry, is_empty==(n==0), independent of order/repetition. Non-trivial: ragged byte length or an access at index len; distinct by (bytes, script) hash. Subcheck big_tables: VersionIndex/u32/u64 tables of k*65536 + {-2..3, 255..257, 0..3000} pairwise distinct entries (k in 1..3), the same oracle with accesses at 65535/65536/65537/n-1/n, nth and skip/step_by distances above 2^16; every case counts as non-trivial. Subcheck in_file: the tables the file-level accessors hand out (ElfBytes section_headers/segments/symbol_table/dynamic_symbol_table/dynamic/find_common_data, i.e. tables whose bytes sit in the middle of a larger buffer; ElfStream symbol_table/dynamic_symbol_table/dynamic) on the three input modes: len/is_empty/iteration/get(i)/count/last agree and get(len), get(len+1..), get(2^32|len), get(usize::MAX) fail; every SHT_REL/SHT_RELA section through ElfBytes and through ElfStream over a reader with short reads and interruptions yields exactly the reference decoding of its whole entries (bounded by take(bytes+2)).",
         assumptions: &["entry sizes are the ABI sizes from <elf.h> (writer self-check)"],
-        subs: vec![Sub::new("tables", oracle, 4096, 1_500_000, 40_000_000), Sub::new("big_tables", oracle_big, 160, 1_500, 60_000).shrink(60)],
+        subs: vec![Sub::new("tables", oracle, 4096, 1_500_000, 40_000_000), Sub::new("big_tables", oracle_big, 160, 1_500, 60_000).shrink(60), Sub::new("in_file", oracle_in_file, 2400, 60_000, 3_000_000).shrink(1500)],
         extras: vec![crate::fuzz::c09_choice],
     }
 }
